@@ -527,9 +527,24 @@ class Translator:
         return f"(if {c} then {coerce(a, at, ty)} else {coerce(b, bt, ty)})", ty
 
     def ex_DictComp(self, n, env):
-        if len(n.generators) != 1 or n.generators[0].ifs:
+        if len(n.generators) != 1:
             fail(n, "dict comprehension shape")
         g = n.generators[0]
+        # `if <key> in self.<dict>` conditions only restrict the KEY SET of the result; dict-valued fields are total
+        # functions in this model (key sets are not modelled), so such conditions do not change the function
+        for cond in g.ifs:
+            tests = cond.values if isinstance(cond, ast.BoolOp) and isinstance(cond.op, ast.And) else [cond]
+            for t in tests:
+                ok = (isinstance(t, ast.Compare) and len(t.ops) == 1 and isinstance(t.ops[0], ast.In)
+                      and isinstance(g.target, ast.Name)
+                      and (ast.unparse(t.left) == g.target.id
+                           or (isinstance(t.left, ast.Subscript) and ast.unparse(t.left.value) == g.target.id
+                               and isinstance(t.left.slice, ast.Constant))))
+                if ok:
+                    _, cty = self.ex(t.comparators[0], env)
+                    ok = isinstance(cty, tuple) and cty[0] == "dict"
+                if not ok:
+                    fail(cond, "dict comprehension condition must be key membership in a dict field")
         it, ity = self.ex(g.iter, env)
         if not (isinstance(ity, tuple) and ity[0] == "dict" and isinstance(g.target, ast.Name)
                 and isinstance(n.key, ast.Name) and n.key.id == g.target.id):
